@@ -246,6 +246,19 @@ def extra_obligations(eng, R, tier):
         want = src[len('CopySource'):] if src.startswith('CopySource') else src
         rows.append(('copy', 'any', 'HeadObject.mapping', src, dst, want, 'mapped to its HeadObject equivalent'))
     rows.append(('copy', 'any', 'HeadObject.mapping', 'injective', len(set(head_map.values())), len(head_map), 'no two arguments mapped to one HeadObject parameter'))
+    # ---- legacy S3Transfer
+    leg_up = _const(eng, 's3transfer:S3Transfer', 'ALLOWED_UPLOAD_ARGS')
+    leg_dl = _const(eng, 's3transfer:S3Transfer', 'ALLOWED_DOWNLOAD_ARGS')
+    leg_part = _const(eng, 's3transfer:MultipartUploader', 'UPLOAD_PART_ARGS')
+    for k in leg_up:
+        cell('legacy.upload', 'single', 'PutObject', k, True, k in acc['PutObject'])
+        cell('legacy.upload', 'multipart', 'CreateMultipartUpload', k, True, k in acc['CreateMultipartUpload'])
+        cell('legacy.upload', 'multipart', 'UploadPart', k, k in leg_part, k in acc['UploadPart'])
+        cell('legacy.upload', 'multipart', 'CompleteMultipartUpload', k, False, k in acc['CompleteMultipartUpload'])
+        cell('legacy.upload', 'multipart', 'AbortMultipartUpload', k, False, k in acc['AbortMultipartUpload'])
+    for k in leg_dl:
+        cell('legacy.download', 'any', 'HeadObject', k, True, k in acc['HeadObject'])
+        cell('legacy.download', 'any', 'GetObject', k, True, k in acc['GetObject'])
     eng.cur_root = 'table'
     eng.cur_props = ('C15',)
     for method, mode, op, k, fwd, exp, why in rows:
@@ -279,3 +292,7 @@ def bounded_checks(tier, seed):
     from pyvc.bounded import run_tool
     return run_tool('C15', 'b3_filters', 'b3_filters.py', [],
                     'all sub-maps and all allow/block lists over a 4-name universe', 'failing_case')
+
+
+from .b_legacy import LEGACY_C15  # noqa: E402
+ROOTS = ROOTS + LEGACY_C15
